@@ -97,7 +97,10 @@ C16-1, C20-3; (h) *API surface below the façade* — entry points that the
 standard library never calls in a particular way (the decomposition chip with
 partial limbs, msm terms sharing a base, guards combined by hand, witnessed
 accumulators and their committed-scalar encoding, proving keys without copy
-constraints): C04-3, C06-3, C08-3, C15-3, C17-3, C20-2.
+constraints, `filecoin_srs`): C04-3, C06-3, C06-4, C08-3, C15-3, C17-3, C17-5,
+C20-2, C20-5; (i) *oracles weaker than the property* — round trips compared
+byte for byte where the property speaks of behaviour, mismatched batches only
+required not to crash: C17-4, C15-5.
 
 | id | property | change | needs | caught by |
 |----|----------|--------|-------|-----------|
